@@ -13,6 +13,12 @@ ASSUME = ("Trusted base: g++ 12.2 / clang++ 14 (front end = interpreter of the t
           "vf/model + harness/*.hh, which contains no Au code. ")
 
 CHECKS = {
+    "C16": dict(level="exploration", technique="exhaustive enumeration of a constant x target-unit x type grid through the C++ front end vs exact ratio arithmetic",
+                text="The 9 library constants (units checked against their SI definitions) and 12 generated constants are converted to same-dimension "
+                     "target units whose ratio straddles every type's limits, for all 11 arithmetic types: can_store_value_in is read out, as<T>/in<T>/"
+                     "implicit conversion values are compared with the exact ratio where representable and must be rejected by the compiler otherwise; "
+                     "composition with numbers, quantities, magnitudes, makers, singular names and constants must leave the stored number bit-identical.",
+                ref="DESIGN.md §6 C16"),
     "C11": dict(level="exploration", technique="exhaustive enumeration of a magnitude x type grid through the C++ front end vs exact big-integer / 90-digit arithmetic",
                 text="Every magnitude of a grid of products of base powers (primes up to 2^64-59, pi; integer and fractional exponents straddling "
                      "every arithmetic type's limits, normal and denormal) is evaluated for all 11 arithmetic types: representable_in, the value "
